@@ -1,6 +1,7 @@
 """C07 - protected records cannot be altered, reordered, replayed or truncated undetected (gmtls record layer)."""
 ID = "C07"
 PROPS = "Props/C07.v"
+GEN = ["tlssuites"]                          # Agree/KeyModel.v (key block derivation for the capture cases) reads the labels from Gen/TLSSuites.v
 COQ_EXTRA_TARGETS = ["Rec/GcmRefTest.vo"]      # RFC 8998 A.1 (SM4-GCM) test of the GCM spec used by the runner
 LEGS = [
     # white box: halfConn.encrypt / decrypt / incSeq / extractPadding / roundUp / padToBlockSize through the hook
@@ -54,7 +55,10 @@ RULE = ("white box (seeded): per suite, payload lengths 0..43 (cbc) / 0..99 (gcm
         "the last record, several deviations, all-genuine, empty) over real GMSSL connections after the handshake; the model replays the "
         "same writes and script with its own keys (Write fragmentation incl. 1/n-1 split and dynamic record sizing, apply_script, Read "
         "with the same buffer sizes) and must predict the record sizes on the wire, the number of bytes delivered, the error and "
-        "whether an alert goes back. "
+        "whether an alert goes back. capture cases (K): 12 real connections (both suites) with Config.KeyLogWriter and a seeded Config.Rand; "
+        "the extracted Coq development derives the key block from the logged master secret and the hello randoms (PRF over HMAC-SM3, "
+        "Agree/KeyModel.v) and opens every record captured after ChangeCipherSpec in both directions (Finished under sequence number 0, then "
+        "the application data): the decoded bytes must equal what the endpoints wrote and read. "
         "A case is non-trivial unless it is an empty-input helper call; distinct = distinct case text")
 
 
@@ -76,6 +80,14 @@ def classify(f, io):
     o = io[0] if io else "none"
     if f[0] == "D":
         return "D:%s:%s:%s" % (f[2], f[8], o)
+    if f[0] == "M":
+        return "M:%s:%s:%s" % (f[2], f[3], o)
+    if f[0] == "H":
+        return "H:%s:%s" % (f[12], " ".join(io[1:2] + io[4:6]) if io else "none")
+    if f[0] == "K":
+        return "K:%s:%s" % (f[2], o)
+    if f[0] == "C":
+        return "C:%s:%s:%s" % (f[2], f[3], o)
     if f[0] == "S":
         first = "genuine"
         sc = _lst(f[6])
@@ -189,6 +201,33 @@ def predicate(f, io):
         if io[0] in ("PANIC", "HANG"):
             return False, "implementation " + io[0]
         return _pred_S(f, io)
+    if op == "C":
+        # writes, close_notify, everything buffered at once, small Read buffers: all bytes, then a clean EOF
+        if io[0] != "ok" or len(io) != 5:
+            return False, "close case: " + " ".join(io[:2])
+        total = sum(int(x) for x in _lst(f[4]))
+        salt = int(f[1]) % 251
+        want = bytes(((i * 131 + (i >> 8) + salt) & 0xff) for i in range(total))
+        got = _unhex(io[2])
+        if want[:len(got)] != got:
+            return False, "close case: delivered bytes are not a prefix of what was written"
+        if got != want:
+            return False, ("close case: only %d of %d bytes were delivered before the end of the stream was reported "
+                           "(reader buffers %s)" % (len(got), total, f[5]))
+        if io[3] != "1" or io[4] != "1":
+            return False, "close case: close_notify was not reported as io.EOF"
+        return True, ""
+    if op == "K":
+        # a captured connection: both directions delivered exactly what was written
+        if io[0] != "ok" or len(io) != 3:
+            return False, "capture: " + " ".join(io[:2])
+        salt = int(f[1]) % 251
+        for k, (ws, sl) in enumerate(((f[3], salt), (f[4], salt + 1))):
+            total = sum(int(x) for x in _lst(ws))
+            want = bytes(((i * 131 + (i >> 8) + sl) & 0xff) for i in range(total))
+            if _unhex(io[1 + k]) != want:
+                return False, "capture: the peer did not read what was written on an unmodified connection"
+        return True, ""
     if io[0] == "HANG":
         return False, "implementation HANG"
     if op == "P":
@@ -236,6 +275,34 @@ def predicate(f, io):
         if len(rec) != want:
             return False, "encrypt: record length"
         return True, ""      # the ciphertext bytes are decided by comparison with the model (real SM4/SM3/GCM specs)
+    if op == "M":
+        # several records through one write and one read half connection: every fragment comes back, in order,
+        # and both sequence numbers advance by the number of records
+        items = [it.split(":") for it in f[8].split(",")]
+        if io[0] != "ok":
+            return False, "stateful pair: a genuine record was rejected (%s)" % " ".join(io)
+        pts = io[2].split(",")
+        if [(_unhex(p)) for p in pts] != [_unhex(it[2]) for it in items]:
+            return False, "stateful pair: decrypted fragments differ from what was encrypted"
+        want = "%016x" % (int(f[7], 16) + len(items))
+        if io[3] != want or io[4] != want:
+            return False, "stateful pair: sequence numbers did not advance by one per record"
+        return True, ""
+    if op == "H":
+        # readRecord during the handshake; the full behaviour is decided by comparison with the model, here the
+        # part the property text names: the pending cipher spec is activated only by a requested
+        # ChangeCipherSpec that arrives while no handshake bytes are waiting, and the sequence number restarts
+        if io[0] != "ok":
+            return False, "handshake-phase readRecord: " + io[0]
+        failed, switched = int(io[1]), io[4] == "1"
+        wants = [int(x) for x in _lst(f[12])]
+        if switched and (f[6] == "-" or 20 not in wants):
+            return False, "cipher spec activated although none was pending / no ChangeCipherSpec was requested"
+        wire = _unhex(f[11])
+        if f[10] != "-" and wants[:1] == [20] and wire[:1] == b"\x14":
+            if switched or failed != 0:
+                return False, "ChangeCipherSpec accepted although handshake bytes were waiting in c.hand"
+        return True, ""
     if op == "D":
         label, want, seq = f[8], f[9], f[6]
         if label in ("genuine", "lenfield"):
@@ -268,4 +335,7 @@ def same(f, io, mo):
             return io[0] == mo[0]
         return (io[1] == mo[1] and io[2] == mo[2] and io[5].split(",")[-1] == mo[3]
                 and io[6].split(",")[-1] == mo[4] and io[10] == mo[5])
+    if f[0] == "C":
+        # number of records (data + close_notify), bytes delivered, error reported
+        return io[:4] == mo[:4]
     return io == mo
